@@ -225,8 +225,9 @@ impl DynJob {
     /// C01 / C15: a job is only ever entered by the thread that holds the queue's run token, owns the
     /// job (popped it and has not pushed it back) and has a live panic guard.
     #[verifier::external_body]
-    pub fn run(&mut self, context: &mut Context, Tracked(q): Tracked<&mut QCtx>, Ghost(guarded): Ghost<bool>) -> (r: Poll<()>)
+    pub fn run(&mut self, context: &mut Context, Tracked(q): Tracked<&mut QCtx>, Ghost(guarded): Ghost<bool>, Ghost(locks): Ghost<u64>) -> (r: Poll<()>)
         requires
+            locks == 0,                                 // OBL C10 no_lock_held_while_running_job
             old(q).holds,                               // OBL C01,C14 run_requires_token
             !old(q).parked,                             // OBL C06 run_only_when_not_parked
             old(q).current == Some(Box::new(*old(self))),         // OBL C01,C02,C03 run_only_popped_job
